@@ -35,8 +35,9 @@ LEVEL_TEXT = ("Composition theorem (C05_composition, closed): for every program 
               "__all__ method names from the source on every run; the model is proved equal to the regenerated definitions.")
 LEVEL_NOTE = ("Trusted: Coq kernel, extraction, the package->model abstraction in this file, CPython as authority. Real traversal: proved that "
               "expand_exports (for every table and fuel, unconditionally) and expand_wildcards (when every wildcard import names a module of the "
-              "table) perform exactly the schedule's per-module steps in the order in which they complete the modules, so griffe_load is a "
-              "two-phase schedule along its own completion orders (C05_load_is_two_schedules). NOT proved: that this two-phase schedule equals the "
+              "table) perform exactly the schedule's per-module steps in the order in which they mark the modules done (the orders are explicit: the "
+              "reversed done-lists), so griffe_load is a two-phase schedule along its own completion orders (C05_load_phases_explicit); the "
+              "extracted model evaluates both sides and the decidable side condition ok_runb on every generated package (it always held so far). NOT proved: that this two-phase schedule equals the "
               "single dependency-order schedule (griffe_sched) when no gap event is reported; it is checked on every generated package (stat "
               "real_vs_sched_compared) and the gap events (pending wildcard read F3, dropped or stale __all__ source F8, pending exports read F10) "
               "are exact in that sense only empirically. The "
@@ -46,7 +47,7 @@ LEVEL_NOTE = ("Trusted: Coq kernel, extraction, the package->model abstraction i
               "checked on the implementation only (the model carries kinds and paths). Alias-resolution caching is over-approximated: names whose "
               "alias chain crosses a replaced alias member, and entries whose special-case comparison crosses one, accept either outcome (F7).")
 MODEL = ("Model.C05_wf", "run_C05w")
-COQ_TARGETS = ["Proofs/C05_imports.vo", "Proofs/C05_main.vo", "Proofs/C05_realw.vo", "Proofs/C05_ladder.vo"]
+COQ_TARGETS = ["Proofs/C05_imports.vo", "Proofs/C05_main.vo", "Proofs/C05_realw.vo", "Proofs/C05_norefs.vo", "Proofs/C05_ladder.vo"]
 RULE = ("hand-written packages (one per rule of the anchored code) and the finding witnesses; seeded random packages in three streams: flat "
         "(package __init__ + 1-4 modules), rich (1-3 modules, a sub-package with 1-2 modules, optionally a nested sub-package) and cyclic (rich or "
         "flat plus 1-2 imports pointing forward in the order; model-vs-implementation only). A random dependency order (each __init__ before, after "
@@ -894,10 +895,11 @@ def abstract_package(pkg, root=None):
 def model_inputs(pkg, root=None):
     ab = abstract_package(pkg, root)
     order = [p.split(".") for p in pkg["order"]]
-    return [["load", pkg["name"], ab], ["sched", pkg["name"], ab, order], ["spec", ab, order], ["wf", pkg["name"], ab, order]]
+    return [["load", pkg["name"], ab], ["sched", pkg["name"], ab, order], ["spec", ab, order], ["wf", pkg["name"], ab, order],
+            ["phases", pkg["name"], ab]]
 
 
-NMODEL = 4      # requests per package
+NMODEL = 5      # requests per package
 
 
 def _items(ex):
@@ -1437,6 +1439,28 @@ def check_packages(ctx, pkgs, stream, direct=True):
                         "hold" if wf else "not-wf_prog" if not wfr[1] else "not-wf_run")
         if wf and not wfr[3]:
             ctx.tie_failure("proof", "C05_composition contradicted by the extracted model", wfr, case)
+        # the real traversal against the schedule steps along its completion orders (C05_load_phases_explicit): the exports phase
+        # unconditionally, the wildcard phase when every wildcard import names a module of the table (ok_runb)
+        ph = outs[NMODEL * i + 4]
+        real_theorem = False
+        if ph[0] == "ok":
+            ctx.observe("two_phase_side_condition", "holds" if ph[2] else "a-wildcard-target-is-not-a-module")
+            ox, ow, dep = list(ph[4]), list(ph[5]), list(pkg["order"])
+            ctx.observe("completion_orders", "both=dependency-order" if ox == dep and ow == dep else
+                        "wildcard-phase=dependency-order" if ow == dep else "exports-phase=dependency-order" if ox == dep else
+                        "exports=wildcard" if ox == ow else "all-differ")
+            if not ph[1] or (ph[2] and not ph[3]):
+                ctx.tie_failure("proof", "C05_load_phases_explicit contradicted by the extracted model", ph[:4], case)
+            ctx.count("two_phase_checked")
+            # C05_real_traversal_agrees: [no_refsb, wf_prog on the wildcard completion order, py_import succeeds in it, wf_run, conclusion]
+            rt = [bool(v) for v in ph[6]]
+            hyp = rt[0] and rt[1] and rt[2] and rt[3] and bool(ph[2])
+            if direct:
+                ctx.observe("real_traversal_theorem", "applies" if hyp else "assembled-__all__" if not rt[0] else
+                            "completion-order-not-importable" if not rt[2] else "not-wf_prog" if not rt[1] else "not-wf_run" if not rt[3] else "pseudo-member")
+            if hyp and not rt[4]:
+                ctx.tie_failure("proof", "C05_real_traversal_agrees contradicted by the extracted model", ph[:4] + [rt], case)
+            real_theorem = hyp
         observe_package(ctx, pkg, stream)
         view = griffe_view(root, pkg)
         top = view.pop("top", None)
@@ -1510,6 +1534,13 @@ def check_packages(ctx, pkgs, stream, direct=True):
         for pb in pres[:3]:
             ctx.property_failure(case, {"presentation": pb}, None)
         cl = classify(pkg, view, a, ml, ms_view, dmi, f5_model)
+        if real_theorem and not dmi and not dso:
+            # the theorem says the real traversal agrees with py_import; the model reproduces Griffe; py_import equals the interpreter:
+            # only attributes bound by the import system (F5's signature) can still differ
+            ctx.count("real_traversal_theorem_applies")
+            bad = [x for x, fid in cl if not f5_signature(x, a)]
+            if bad:
+                ctx.tie_failure("correspondence", "C05_real_traversal_agrees: griffe.load vs CPython under the theorem's hypotheses", {"diffs": bad[:6]}, case)
         ctx.observe("direct", "equal" if not cl else "+".join(sorted({str(f) for _, f in cl})))
         for x, fid in cl:
             ctx.property_failure(case, {"module": x[0], "name": x[1], "griffe": x[2], "cpython": x[3]}, fid)
